@@ -5,6 +5,7 @@ import (
 
 	"verif/harness/core"
 	"verif/harness/dec"
+	"verif/harness/ref/preparse"
 )
 
 // FuzzDecode is the coverage-guided extra of C08's thorough tier (native Go fuzzing; not
@@ -32,8 +33,14 @@ func FuzzDecode(f *testing.F) {
 		if len(entry) > 6 && entry[:6] == "codec:" {
 			c.Info = &dec.Info{W: 8, H: 8, BA: 8, BS: 8, SPP: 1}
 		}
-		if s, found := declared(c); found && s > domainSamples {
-			return // allocation size is C09's subject; keep the campaign fast
+		// Time and allocation size are C09's subject. The fuzz engine treats an execution of about
+		// ten seconds as a hang and stops the whole campaign, so inputs that declare much work are
+		// left to the worker-based tests: more than 2^18 samples, or more than 2^12 precincts.
+		if s, found := declared(c); found && s > 1<<18 {
+			return
+		}
+		if preparse.J2KPrecincts(data) > 1<<12 {
+			return
 		}
 		fail := core.Guard(func() *core.Failure {
 			_ = dec.Run(entry, data, c.Info)
